@@ -396,20 +396,28 @@ def checkOutput (nChannels : Nat) (labels : List Nat) : Except PyErr Unit :=
 
 /-! ### `UniformNeighborSampler.__call__` -/
 
-/-- `eliminate_zeros()` on one stored row of (column, value) pairs (repaired: before sampling) -/
-def dropZeros (row : List (Nat × α)) : List (Nat × α) := row.filter fun e => !(eqb e.2 0)
+/-- entry `j` of a stored CSR row of (column, value) pairs: duplicates are summed -/
+def entrySum (row : List (Nat × α)) (j : Nat) : α := (row.map fun e => if e.1 == j then e.2 else 0).sum
 
-/-- One row of the sampled adjacency: the stored non-zero entries are the neighbours (positions `0 … deg-1`), their
-data are zeroed, the chosen positions `ch` are set to 1 and `eliminate_zeros()` drops the rest.  Returns the column
-indices kept (all data are 1: the weights are not kept).  `ch` is what
-`np.random.choice(deg, min(deg, sample_size), replace=False)` returned. -/
-def sampleRow (row : List (Nat × α)) (ch : List Nat) : List Nat :=
-  let nz := dropZeros row
-  ((List.range nz.length).filter fun p => ch.contains p).map fun p => (nz.getD p (0, 0)).1
+/-- The neighbours of a node as the sampler sees them (repaired): `sum_duplicates()` then `eliminate_zeros()` on the CSR
+row — the columns `j < nCol`, in increasing order, whose summed stored value is not zero. -/
+def neighbours (nCol : Nat) (row : List (Nat × α)) : List Nat :=
+  (List.range nCol).filter fun j => !(eqb (entrySum row j) 0)
+
+/-- One row of the sampled adjacency: the neighbours are positions `0 … deg-1`, their data are zeroed, the chosen
+positions `ch` are set to 1 and `eliminate_zeros()` drops the rest.  Returns the column indices kept (all data are 1: the
+weights are not kept).  `ch` is what `np.random.choice(deg, min(deg, sample_size), replace=False)` returned. -/
+def sampleRow (nCol : Nat) (row : List (Nat × α)) (ch : List Nat) : List Nat :=
+  let nb := neighbours nCol row
+  ((List.range nb.length).filter fun p => ch.contains p).map fun p => nb.getD p 0
 
 /-- `UniformNeighborSampler.__call__` on the CSR rows of the adjacency (any container is converted to CSR first) -/
-def sampleRows (rows : List (List (Nat × α))) (choice : List (List Nat)) : List (List Nat) :=
-  tab rows.length fun i => sampleRow (rows.getD i []) (choice.getD i [])
+def sampleRows (nCol : Nat) (rows : List (List (Nat × α))) (choice : List (List Nat)) : List (List Nat) :=
+  tab rows.length fun i => sampleRow nCol (rows.getD i []) (choice.getD i [])
+
+/-- `GNNClassifier._sample_nodes` samples the adjacency of a layer whose type contains 'sage' in any case (repaired: the
+test was `== 'sage'`, so the documented spelling `Convolution('Sage', …)` was not sampled); other layers get the graph -/
+def isSageType (layerType : String) : Bool := hasSub layerType.toLower "sage"
 
 /-- `np.random.choice(size, size=min(size, sample_size), replace=False)` returned a legal sample -/
 def choiceOk (deg sampleSize : Nat) (ch : List Nat) : Bool :=
